@@ -590,6 +590,13 @@ BD_Shape<T>::concatenate_assign(const BD_Shape& y) {
     return;
   }
 
+  // The concatenation with an empty bounded difference shape is empty.
+  if (y.marked_empty()) {
+    add_space_dimensions_and_embed(y_space_dim);
+    set_empty();
+    return;
+  }
+
   // If `x' is an empty 0-dim space BDS, then it is sufficient to adjust
   // the dimension of the vector space.
   if (x_space_dim == 0 && marked_empty()) {
